@@ -324,6 +324,11 @@ def specC15 (a : List String) : Option String :=
 
 def textOp (op : String) (a : List String) : Option String :=
   match op with
+  | "rank_pair" =>
+    -- rank_pair <kind 0 pocket / 1 suited / 2 offsuit> <first rank> <second rank> : combos in iteration order, and the text
+    let n (i : Nat) : Nat := (a.getD i "0").toNat!
+    let rp : RankPair := if n 0 == 0 then .pocket (n 1) else if n 0 == 1 then .suited (n 1) (n 2) else .ofsuit (n 1) (n 2)
+    some s!"{",".intercalate (rp.combos.map fun c => toString c.code)} text={hex rp.show}"
   | "parse_token" => some (opParseToken a)
   | "parse_range" => some (opParseRange a)
   | "token_roundtrip" => some (opTokenRoundtrip a)
